@@ -626,7 +626,12 @@ impl<T: Object> Object for Vec<T> {
             Primitive::Null => {
                 Vec::new()
             }
-            Primitive::Reference(id) => Self::from_primitive(r.resolve(id)?, r)?,
+            Primitive::Reference(id) => match r.resolve(id)? {
+                p @ Primitive::Array(_) | p @ Primitive::Null => Self::from_primitive(p, r)?,
+                // a single element stored as an indirect object: the element reader gets the reference, which it may
+                // want to keep (Ref, RcRef, MaybeRef) and which keeps the resolver's cycle detection in the loop
+                _ => vec![T::from_primitive(Primitive::Reference(id), r)?]
+            },
             _ => vec![T::from_primitive(p, r)?]
         }
         )
